@@ -775,6 +775,8 @@ func burst(reg *labdriver.Registry, rec *recorder, lk link, std *frugal.FStandar
 			}
 			tag := fmt.Sprintf("%d/%d", round, idx)
 			fctx.AddRequestHeader("c03-burst", tag)
+			// a correlation id of its own: the reply must bring back THIS call's _cid (C09 under concurrency)
+			fctx.AddRequestHeader("_cid", "c03b"+tag)
 			rec.mu.Lock()
 			rec.burst[tag] = burstOutcome{retv, rete}
 			rec.mu.Unlock()
